@@ -85,6 +85,62 @@ func randStyle(r *rand.Rand, pool *[]vaxis.Style) vaxis.Style {
 	return s
 }
 
+// hyperlink targets and parameter strings by LENGTH: nothing in Vaxis, the parser or the
+// emulator may depend on how long an OSC 8 payload is.  The classes: 1, 100, the 2083 of VTE and
+// browsers and the byte after it, 5000, and a random length around each power-of-two/"round"
+// buffer size an implementation might have chosen
+var linkLens = []int{1, 100, 2083, 2084, 5000}
+
+func linkLen(r *rand.Rand) int {
+	switch r.Intn(8) {
+	case 0:
+		return []int{255, 256, 257, 1023, 1024, 1025, 2047, 2048, 2049, 4095, 4096, 4097}[r.Intn(12)]
+	case 1:
+		return 1 + r.Intn(5200)
+	default:
+		return linkLens[r.Intn(len(linkLens))]
+	}
+}
+
+const uriChars = "abcdefghijklmnopqrstuvwxyzABCDEFGHIJKLMNOPQRSTUVWXYZ0123456789-._~/?#&=+%:@,!$'()*;"
+
+// a URI of exactly n bytes (n >= 1)
+func longURI(r *rand.Rand, n int) string {
+	head := []string{"https://e.org/?q=", "data:text/plain;base64,", "x", "file:///"}[r.Intn(4)]
+	if len(head) > n {
+		head = head[:n]
+	}
+	b := []byte(head)
+	for len(b) < n {
+		b = append(b, uriChars[r.Intn(len(uriChars))])
+	}
+	return string(b)
+}
+
+// OSC 8 parameters of exactly n bytes (n >= 4): key=value pairs separated by ':'; no ';'
+func longParams(r *rand.Rand, n int) string {
+	b := []byte("id=")
+	for len(b) < n {
+		c := uriChars[r.Intn(len(uriChars)-1)] // not ';'
+		b = append(b, c)
+	}
+	return string(b)
+}
+
+// a style whose hyperlink (and, half of the time, its parameters) is chosen by length
+func longLinkStyle(r *rand.Rand, pool *[]vaxis.Style) vaxis.Style {
+	st := randStyle(r, pool)
+	st.Hyperlink = longURI(r, linkLen(r))
+	st.HyperlinkParams = ""
+	switch r.Intn(4) {
+	case 0:
+		st.HyperlinkParams = longParams(r, 3+linkLen(r))
+	case 1:
+		st.HyperlinkParams = "id=7"
+	}
+	return st
+}
+
 func ecell(g string, w int, st vaxis.Style) string {
 	return hx.Tuple(hx.Runes(g), hx.Z(int64(w)), renderhx.Style(st))
 }
@@ -106,6 +162,7 @@ func main() {
 	var direct []hx.DirectViolation
 	frames := 0
 	nResize := 0
+	nLong := 0
 	for h := 0; h < nHist; h++ {
 		rows, cols := 1+r.Intn(maxRows), 2+r.Intn(maxCols)
 		rows0, cols0 := rows, cols
@@ -223,6 +280,13 @@ func main() {
 		if nf >= 2 && h%4 == 1 {
 			pairAt = r.Intn(nf - 1)
 		}
+		// one history in eight: at one frame one or two cells carry a hyperlink chosen by its
+		// LENGTH (the first histories of the class take 1, 100, 2083, 2084, 5000 in turn)
+		longAt := -1
+		if h%8 == 3 {
+			longAt = r.Intn(nf)
+			nLong++
+		}
 		for f := 0; f < nf; f++ {
 			win := vx.Window()
 			var ops, opsJ []string
@@ -230,10 +294,17 @@ func main() {
 			if f == 0 {
 				nops += 3
 			}
-			idle := f > 0 && haveCursor && r.Intn(6) == 0
+			// an idle frame: at most the cursor's shape changes; with no drawing call at all and
+			// ended by Render it writes ZERO bytes: the emulator receives nothing between two Draws
+			// into the (cleared) host window, which must show the same picture again
+			idle := f > 0 && r.Intn(6) == 0
 			if idle {
-				nops = r.Intn(2) // an idle frame: at most the cursor's shape changes
+				nops = r.Intn(2)
+				if !haveCursor {
+					nops = 0
+				}
 			}
+			trueIdle := idle && nops == 0 && f != longAt
 			if f == pairAt+1 && pairAt >= 0 {
 				idle, nops = false, 0
 			}
@@ -283,6 +354,25 @@ func main() {
 					opsJ = append(opsJ, fmt.Sprintf("SetCell(%d,%d,%q)", col, row, c.Grapheme))
 				}
 			}
+			if f == longAt {
+				for k, nl := 0, 1+r.Intn(2); k < nl; k++ {
+					st := longLinkStyle(r, &pool)
+					if k == 0 && nLong <= len(linkLens) {
+						st.Hyperlink = longURI(r, linkLens[nLong-1])
+					} else if k == 0 && nLong <= 2*len(linkLens) {
+						st.Hyperlink = "http://p"
+						st.HyperlinkParams = longParams(r, 3+linkLens[nLong-1-len(linkLens)])
+					}
+					c := vaxis.Cell{Character: vaxis.Character{Grapheme: []string{"L", "a", "漢"}[r.Intn(3)]}, Style: st}
+					col, row := r.Intn(cols), r.Intn(rows)
+					if w := vx.RenderedWidth(c.Grapheme); w > 1 && col+w > cols {
+						c.Grapheme = "L"
+					}
+					win.SetCell(col, row, c)
+					ops = append(ops, fmt.Sprintf("OSet %d %d %s", col, row, renderhx.Cell(vx, c)))
+					opsJ = append(opsJ, fmt.Sprintf("SetCell(%d,%d,%q,link=%d bytes,params=%d bytes)", col, row, c.Grapheme, len(st.Hyperlink), len(st.HyperlinkParams)))
+				}
+			}
 			if pairAt >= 0 && (f == pairAt || f == pairAt+1) {
 				g := []string{"a", "b", "x"}[(f-pairAt+h)%3]
 				c := vaxis.Cell{Character: vaxis.Character{Grapheme: g}}
@@ -300,7 +390,7 @@ func main() {
 			end := "FRender"
 			resized := false
 			switch x := r.Intn(40); {
-			case pairAt >= 0 && (f == pairAt || f == pairAt+1):
+			case pairAt >= 0 && (f == pairAt || f == pairAt+1), f == longAt, trueIdle:
 				vx.Render()
 			case x < 5:
 				vx.Refresh()
@@ -408,11 +498,11 @@ func main() {
 			direct = append(direct, hx.DirectViolation{Class: "emulator-feed", Case: js, What: feedProblem})
 		}
 		s.Add(fmt.Sprintf("Build_ecase %d %d %s %s %s %s %s", rows0, cols0, hx.List(wt), hx.List(st), hx.List(capsT), hx.Bytes(pre), hx.List(fterms)), js, nf > 1,
-			fmt.Sprintf("frames=%d", nf), fmt.Sprintf("resizes=%d", hResizes), fmt.Sprintf("dirty=%v", len(pre) > 0), fmt.Sprintf("lastcol-pair=%v", pairAt >= 0))
+			fmt.Sprintf("frames=%d", nf), fmt.Sprintf("resizes=%d", hResizes), fmt.Sprintf("dirty=%v", len(pre) > 0), fmt.Sprintf("lastcol-pair=%v", pairAt >= 0), fmt.Sprintf("long-link=%v", longAt >= 0))
 		hx.WithTimeout(2*time.Second, vx.Close)
 		hx.WithTimeout(2*time.Second, host.Close)
 		emu.Close()
 	}
-	cfg.Write("C12", "a real Vaxis started on the real embedded emulator (handshake through the emulator's own replies), every third history over a primary screen that already holds styled text (coloured fill, coloured underlined lines and a prompt, reverse-video hyperlinked last column); random frame histories as in C01 (sizes up to 4x9 quick / 10x30 thorough, wide, zero-width and multi-codepoint graphemes, all colour classes, attributes, underline styles, hyperlinks, cursor), one history in four with a directed pair of frames (the bottom-right cell written last with the cursor hidden, then a frame changing only that cell); ended by Render, Refresh or a size change (the host window is resized - to 1x1, shrinking below the cursor, growing, random -, drawing the emulator into it resizes the emulator, Vaxis sees the new size and repaints with the next frame); after every frame the emulator's grid and cursor and the cells obtained by drawing the emulator into a host Vaxis are recorded, and for every printed run the clusters and widths the real parser (uniseg) cut it into. non-trivial = more than one frame",
+	cfg.Write("C12", "a real Vaxis started on the real embedded emulator (handshake through the emulator's own replies), every third history over a primary screen that already holds styled text (coloured fill, coloured underlined lines and a prompt, reverse-video hyperlinked last column); random frame histories as in C01 (sizes up to 4x9 quick / 10x30 thorough, wide, zero-width and multi-codepoint graphemes, all colour classes, attributes, underline styles, hyperlinks, cursor), one history in eight with one or two cells whose hyperlink target and parameters are chosen by LENGTH (1, 100, 2083, 2084, 5000 bytes, sizes around 256/1024/2048/4096, random up to 5200), one history in four with a directed pair of frames (the bottom-right cell written last with the cursor hidden, then a frame changing only that cell); ended by Render, Refresh or a size change (the host window is resized - to 1x1, shrinking below the cursor, growing, random -, drawing the emulator into it resizes the emulator, Vaxis sees the new size and repaints with the next frame); after every frame the emulator's grid and cursor and the cells obtained by drawing the emulator into a host Vaxis are recorded, and for every printed run the clusters and widths the real parser (uniseg) cut it into. non-trivial = more than one frame",
 		[]*hx.Stream{s}, map[string]interface{}{"frames": frames, "resizes": nResize}, direct)
 }
